@@ -124,6 +124,9 @@ class Facts:
         self.path = path
         import anchors
         self.anchor_notes = anchors.recover(d) if not os.environ.get("RM_NO_ANCHOR_RECOVERY") else []
+        if not os.environ.get("RM_NO_ANCHOR_RECOVERY") and not os.environ.get("RM_NO_INLINE"):
+            import inline
+            self.anchor_notes += inline.inline_new_helpers(d, anchors._load())
         self.meta = d["meta"]
         if H is not None and self.meta.get("nonce") != H:
             raise InfraError("fact file nonce mismatch")
